@@ -169,6 +169,29 @@ def _derivative_unit_of(interp, args, kwargs):
     return SV(ty, f(args[0].t, _s(interp, args[1])))
 
 
+def _partition(right):
+    def f(interp, args, kwargs):
+        """s.partition(sep) / s.rpartition(sep) for a one-character literal sep (native encoding): exact"""
+        ctx = interp.ctx
+        t = _s(interp, args[0])
+        sep = args[1]
+        if not isinstance(sep, str) or len(sep) != 1:
+            raise Unsupported("partition with a non-literal separator")
+        sp = z3.StringVal(sep)
+        a = z3.Const(ctx.fresh_name("part_a"), z3.StringSort())
+        b = z3.Const(ctx.fresh_name("part_b"), z3.StringSort())
+        found = z3.Contains(t, sp)
+        if right:
+            ctx.assume(z3.If(found, z3.And(t == z3.Concat(a, sp, b), z3.Not(z3.Contains(b, sp))),
+                             z3.And(a == z3.StringVal(""), b == t)))
+        else:
+            ctx.assume(z3.If(found, z3.And(t == z3.Concat(a, sp, b), z3.Not(z3.Contains(a, sp))),
+                             z3.And(a == t, b == z3.StringVal(""))))
+        mid = z3.If(found, sp, z3.StringVal(""))
+        return (SV(STR, a), SV(STR, mid), SV(STR, b))
+    return f
+
+
 def _empty_str_set(interp, args, kwargs):
     return SV(TSet(STR), z3.K(z3.StringSort(), z3.BoolVal(False)))
 
@@ -303,6 +326,7 @@ if z3 is not None:
         "derivative_unit_of": _derivative_unit_of, "float_parses": _float_parses, "float_of": _float_of, "SchemaEntry.has_attribute": _entry_has_attribute,
         "UnitClassEntry.has_attribute": _entry_has_attribute, "UnitEntry.has_attribute": _entry_has_attribute,
         "tag_view": _tag_view, "basic_issues_of": _ulist("basic_issues_of", 3), "full_issues_of": _ulist("full_issues_of", 2),
+        "str.rpartition": _partition(True), "str.partition": _partition(False),
         "str.replace": _str_replace, "replace_all": _str_replace,
         "forall_str": _forall_str, "dirname_of": _dirname_model, "commonpath2": _ufun("commonpath2", 2),
         "os.path.commonpath": lambda interp, args, kwargs: _ufun("commonpath2", 2)(interp, list(interp.iter_items_concrete(args[0])), {}), "basename_of": _basename_model, "original_path_of": _ufun("original_path_of", 2),
